@@ -277,7 +277,13 @@ func (e *Exec) runPath(it workItem) {
 					outcome = "pathend:" + rec.why
 				case abortT:
 					outcome = "abort"
-					e.eventSafe("abort", "abort", rec.why)
+					if strings.Contains(rec.why, "unwinding bound") && (r.cfg.property == "C06" || r.cfg.property == "C07") {
+						// these properties claim termination: exceeding the step / call-depth budget
+						// (far above what the bounded inputs need) is reported as non-termination
+						e.eventSafe("nontermination", "nontermination", rec.why)
+					} else {
+						e.eventSafe("abort", "abort", rec.why)
+					}
 				case goPanic:
 					outcome = "panic"
 					e.eventSafe("panic", "panic", "uncaught Go panic: "+renderStr(e.panicText(rec.v), nil))
